@@ -14,6 +14,7 @@ def build(reg):
     me = reg.module("gcmpy/network/edge_list.py")
     EL = me.cls("LightWeightEdgeList", fields={"_edge_list": LP, "_topologies": LName, "_joint_degrees": JDS, "_motif_id": LInt},
            properties={"edge_list": "_edge_list", "topologies": "_topologies", "joint_degrees": "_joint_degrees", "motif_id": "_motif_id"})
+    me.fn("LightWeightEdgeList.__init__", ensures={"empty": "len(self._edge_list) == 0 and len(self._topologies) == 0 and len(self._joint_degrees) == 0 and len(self._motif_id) == 0"})
     m = reg.module("gcmpy/network/edge_list_to_network.py")
     m.cls("EdgeListToNetwork", fields={})
     EQ = lambda i, u, v: f"(edgelist._edge_list[{i}] == ({u}, {v}) or edgelist._edge_list[{i}] == ({v}, {u}))"
@@ -26,6 +27,8 @@ def build(reg):
                "joint_degree": "forall(x, 0, len(edgelist._joint_degrees), (x in result._G.jd_has) and result._G.jd[x] == edgelist._joint_degrees[x])",
                "edges": "forall_elem(u, Int, forall_elem(v, Int, ((u, v) in result._G.adj) == exists(i, 0, len(edgelist._edge_list), " + EQ("i", "u", "v") + ")))",
                "attrs_once": f"forall(i, 0, len(edgelist._edge_list), implies({ONCE}, (edgelist._edge_list[i] in result._G.top_has) and result._G.top[edgelist._edge_list[i]] == edgelist._topologies[i] and (edgelist._edge_list[i] in result._G.mid_has) and result._G.mid[edgelist._edge_list[i]] == edgelist._motif_id[i]))",
+               "attrs_symmetric": "forall_elem(u, Int, forall_elem(v, Int, result._G.top[(u, v)] == result._G.top[(v, u)] and result._G.mid[(u, v)] == result._G.mid[(v, u)]))",
+               "all_edges_annotated": "forall_elem(e, Pair, implies(e in result._G.adj, (e in result._G.top_has) and (e in result._G.mid_has)))",
                "input_unchanged": "edgelist == old(edgelist)"},
       loops={0: dict(inv={"dom": "forall_elem(x, Int, (x in joint_degrees) == (0 <= x and x < IT))",
                           "val": "forall(x, 0, IT, joint_degrees[x] == edgelist._joint_degrees[x])", "frame": "model == old_model and edgelist == old(edgelist)"},
@@ -36,4 +39,35 @@ def build(reg):
                           "last_m": "forall(j, 0, IT, implies(forall(j2, j + 1, IT, edgelist._edge_list[j2] != edgelist._edge_list[j]), motif_ids[edgelist._edge_list[j]] == edgelist._motif_id[j]))",
                           "frame": "model == old_model1 and edgelist == old(edgelist)"},
                      snap={"old_model1": "model"})})
-    return ["Network.__init__", "EdgeListToNetwork.convert"]
+    mr = reg.module("gcmpy/network/network_to_edge_list.py")
+    mr.cls("NetworkToEdgeList", fields={})
+    NET = mn.classes["Network"].ty
+    ANNOT = "forall_elem(e, Pair, implies(e in network._G.adj, (e in network._G.top_has) and (e in network._G.mid_has)))"
+    mr.fn("NetworkToEdgeList.convert", params={"network": NET, "ORDER": INT}, ghost=["ORDER"], ret=EL.ty,
+      requires={"nodes_0_to_order": "ORDER >= 0 and forall_elem(x, Int, (x in network._G.nodes) == (0 <= x and x < ORDER))",
+                "vertices_annotated": "forall(x, 0, ORDER, x in network._G.jd_has)", "edges_annotated": ANNOT},
+      ensures={"joint_degrees": "len(result._joint_degrees) == ORDER and forall(x, 0, ORDER, result._joint_degrees[x] == network._G.jd[x])",
+               "edge_list_is_the_edge_enumeration": "len(result._edge_list) == len(edge_seq(network._G)) and forall(q, 0, len(result._edge_list), result._edge_list[q] == edge_seq(network._G)[q])",
+               "columns_parallel": "len(result._topologies) == len(result._edge_list) and len(result._motif_id) == len(result._edge_list)",
+               "topologies": "forall(q, 0, len(result._edge_list), result._topologies[q] == network._G.top[result._edge_list[q]])",
+               "motif_ids": "forall(q, 0, len(result._edge_list), result._motif_id[q] == network._G.mid[result._edge_list[q]])",
+               "input_unchanged": "network == old(network)"})
+    # ---- round trip: a lemma over the two contracts (spec-level composition, verified modularly: only the callees' contracts are used)
+    reg.virtual["<lemma>/roundtrip.py"] = (
+        "class RoundTrip:\n"
+        "    def roundtrip(edgelist):\n"
+        "        net = EdgeListToNetwork.convert(edgelist)\n"
+        "        back = NetworkToEdgeList.convert(net)\n"
+        "        return back\n")
+    ml = reg.module("<lemma>/roundtrip.py"); ml.cls("RoundTrip", fields={})
+    ml.fn("RoundTrip.roundtrip", params={"edgelist": EL.ty}, ret=EL.ty,
+      call_ghosts={"NetworkToEdgeList.convert": {"ORDER": "len(edgelist._joint_degrees)"}},
+      requires={"parallel": "len(edgelist._edge_list) == len(edgelist._topologies) and len(edgelist._edge_list) == len(edgelist._motif_id)",
+                "vertices": "forall(i, 0, len(edgelist._edge_list), 0 <= edgelist._edge_list[i][0] and edgelist._edge_list[i][0] < len(edgelist._joint_degrees) and 0 <= edgelist._edge_list[i][1] and edgelist._edge_list[i][1] < len(edgelist._joint_degrees))"},
+      ensures={"same_joint_degrees": "len(result._joint_degrees) == len(edgelist._joint_degrees) and forall(x, 0, len(edgelist._joint_degrees), result._joint_degrees[x] == edgelist._joint_degrees[x])",
+               "no_edge_invented": "forall(q, 0, len(result._edge_list), exists(i, 0, len(edgelist._edge_list), " + EQ("i", "result._edge_list[q][0]", "result._edge_list[q][1]") + "))",
+               "no_edge_lost": "forall(i, 0, len(edgelist._edge_list), 0 <= edge_idx(net._G, edgelist._edge_list[i][0], edgelist._edge_list[i][1]) and edge_idx(net._G, edgelist._edge_list[i][0], edgelist._edge_list[i][1]) < len(result._edge_list) and "
+                               "(result._edge_list[edge_idx(net._G, edgelist._edge_list[i][0], edgelist._edge_list[i][1])] == edgelist._edge_list[i] or result._edge_list[edge_idx(net._G, edgelist._edge_list[i][0], edgelist._edge_list[i][1])] == (edgelist._edge_list[i][1], edgelist._edge_list[i][0])))",
+               "each_edge_once": "forall(q, 0, len(result._edge_list), forall(q2, q + 1, len(result._edge_list), result._edge_list[q] != result._edge_list[q2] and result._edge_list[q] != (result._edge_list[q2][1], result._edge_list[q2][0])))",
+               "annotations_of_single_entries_survive": f"forall(i, 0, len(edgelist._edge_list), implies({ONCE}, forall(q, 0, len(result._edge_list), implies(result._edge_list[q] == edgelist._edge_list[i] or result._edge_list[q] == (edgelist._edge_list[i][1], edgelist._edge_list[i][0]), result._topologies[q] == edgelist._topologies[i] and result._motif_id[q] == edgelist._motif_id[i]))))"})
+    return ["Network.__init__", "LightWeightEdgeList.__init__", "EdgeListToNetwork.convert", "NetworkToEdgeList.convert", "RoundTrip.roundtrip"]
